@@ -3,6 +3,8 @@
 
     OFF p h1,h2,…         offer the hashed values to a fresh counter of precision p
                            → <hex GetBytes> <booleans of Offer, as 0/1 string or -> <cardinality> <branch L|R> <zeros> <regSum>
+                             <branch of the exact rational specification L|R> <its rounded raw estimate>
+    PACK p r0,r1,…        bytesOfRegs p (registers as a list) → <hex>
     MRG p L1|L2|…         counters built from the lists L1, L2, …; L1.Merge(L2, …)
                            → <hex GetBytes of the merge> <cardinality>
     BLD <hex>             BuildHyperLogLog → ok <p> <hex GetBytes of the rebuilt counter> <cardinality> | fail
@@ -19,6 +21,8 @@
   `Float` (IEEE-754 binary64, the C library's `log`).
 -/
 import Golib.HLL.Model
+import Golib.HLL.EstSpec
+import Golib.HLL.Abstract
 import Driver.Common
 
 open HLL Drv Prim
@@ -50,7 +54,11 @@ def cardLine (p : Nat) (ws : Array Nat) : String :=
   let br := match cardBranch estF p rs with
     | .linear _ _ => "L"
     | .raw _ => "R"
-  s!"{cardinality estF p ws} {br} {zeros rs} {regSum rs}"
+  let spec := specEst (fun _ => 0)
+  let brq := match cardBranch spec p rs with
+    | .linear _ _ => "L"
+    | .raw _ => "R"
+  s!"{cardinality estF p ws} {br} {zeros rs} {regSum rs} {brq} {roundQ (rawQ p (regSum rs))}"
 
 def okP (p : Nat) : Bool := 1 ≤ p && p ≤ 24
 
@@ -101,6 +109,13 @@ def answer (line : String) : String :=
         else s!"ok {p} {hexOf (getBytes p ws)} -"
       | none => "fail"
     | none => "bad-op"
+  | ["PACK", p, rs] =>
+    match parseNat p, natList rs with
+    | some p, some rs =>
+      if !okP p then "bad-op" else
+      let arr := rs.toArray
+      hexOf (bytesOfRegs p (fun r => arr.getD r 0))
+    | _, _ => "bad-op"
   | ["IR", p, h] =>
     match parseNat p, parseNat h with
     | some p, some h => s!"{idx p h} {rank p h}"
